@@ -103,7 +103,17 @@ pub fn check_decode(ty: &Ty, input: &[u8], out: &mut CaseOut, fam: &str) {
         );
     }
     if dt.as_millis() > 50 && bytes_alloc <= limit {
-        out.violate(format!("{fam}/{tn}/time"), format!("decoding {} as {ty:?} took {:?}", show(input), dt));
+        // wall-clock is only a backstop (the deterministic cost measure is the allocation count): a slow
+        // measurement may be scheduling noise, so it is repeated and only a reproducible excess is reported
+        let mut best = dt;
+        for _ in 0..5 {
+            let t1 = Instant::now();
+            let _ = guarded(|| real_decode(ty, slice));
+            best = best.min(t1.elapsed());
+        }
+        if best.as_millis() > 250 {
+            out.violate(format!("{fam}/{tn}/time"), format!("decoding {} as {ty:?} takes at least {:?} (best of 6 measurements)", show(input), best));
+        }
     }
 }
 
